@@ -75,6 +75,9 @@ def execute(sc, workdir):
     if sc.get("kind") == "lockstep-mux":
         from . import c03
         return c03._lockstep_mux(sc, workdir)
+    if sc.get("kind") == "b3-mux":
+        from . import c03
+        return c03._b3_mux(sc, workdir)
     r = execute_core(sc, workdir, ID, ("rsp",))
     r["nontrivial"] = [[sc["memtype"], sc["clk_khz"]] + sc["name"].split("-")[1:3]]
     r["stats"]["worst_accept_wait_tck"] = 0
